@@ -264,7 +264,7 @@ func run(c *vf.Ctx) {
 	for i := 0; i < nrepos; i++ {
 		repos = append(repos, buildRepo(c, g, c.Rand("repo", i), i))
 	}
-	runs := c.N(450, 8000)
+	runs := c.N(450, 3000)
 	caps := []int{0, 1, 2, 3, 8}
 	totalEvents := 0
 	for i := 0; i < runs; i++ {
@@ -276,15 +276,15 @@ func run(c *vf.Ctx) {
 	}
 	graceRuns(c, repos[0])
 	c.Extra("trace_events", totalEvents)
-	c.Floor("runs", c.Counter("runs"), c.N(420, 7000))
-	c.Floor("runs without object iterators (any reader error there is a violation)", c.Counter("runs_without_iterators"), c.N(200, 4000))
-	c.Floor("trace events", totalEvents, c.N(100000, 1500000))
-	c.Floor("evictions observed", c.Counter("ev_pool.evict"), c.N(400, 7000))
-	c.Floor("all-pinned fallback observed (latch events)", c.Counter("ev_sf.latch"), c.N(5, 100))
-	c.Floor("reads verified against ground truth", c.Counter("reads_ok"), c.N(40000, 600000))
-	c.Floor("quiescent checks", c.Counter("quiescent_checks"), c.N(400, 7000))
+	c.Floor("runs", c.Counter("runs"), c.N(420, 2700))
+	c.Floor("runs without object iterators (any reader error there is a violation)", c.Counter("runs_without_iterators"), c.N(200, 1400))
+	c.Floor("trace events", totalEvents, c.N(100000, 500000))
+	c.Floor("evictions observed", c.Counter("ev_pool.evict"), c.N(400, 2500))
+	c.Floor("all-pinned fallback observed (latch events)", c.Counter("ev_sf.latch"), c.N(5, 35))
+	c.Floor("reads verified against ground truth", c.Counter("reads_ok"), c.N(40000, 200000))
+	c.Floor("quiescent checks", c.Counter("quiescent_checks"), c.N(400, 2500))
 	c.Floor("grace-timer closes observed", c.Counter("ev_sf.close.timer"), 3)
-	c.Floor("distinct event interleavings", c.SeenCount("interleavings"), c.N(50, 1000))
+	c.Floor("distinct event interleavings", c.SeenCount("interleavings"), c.N(50, 350))
 	c.Assume("hook events are emitted under the owning object's own mutex, so per-object event order is the real order")
 	c.Assume("un-pooled idle close is checked with real time: grace period 1s, verdict only after a 60s bound (inconclusive if the machine stalls)")
 }
